@@ -30,8 +30,8 @@ def K(s, up):
 
 
 # =============================================================== declaration slice
-INIT_TEXT = {"integer": "1", "real": "1.5", "complex": "(1.0, 2.0)", "logical": ".true.", "character": "'a,b  c'", "doubleprecision": "1.5d0"}
-ARRAY_ITEMS = {"integer": ["1", "2", "3"], "real": ["1.5", "2.5", "3.5"], "complex": ["(1.0, 2.0)", "(0.0, 1.0)", "(2.0, 0.0)"], "logical": [".true.", ".false.", ".true."],
+INIT_TEXT = {"integer": "1", "real": "1.5", "complex": "(1.0, 2.0)", "logical": "1 == 1", "character": "'a,b  c'", "doubleprecision": "1.5d0"}
+ARRAY_ITEMS = {"integer": ["1", "2", "3"], "real": ["1.5", "2.5", "3.5"], "complex": ["(1.0, 2.0)", "(0.0, 1.0)", "(2.0, 0.0)"], "logical": ["1 == 1", ".false.", "2 >= 1"],
                "character": ["'a,b'", "'c d'", "'e''f'"], "doubleprecision": ["1.5d0", "2.5d0", "3.5d0"]}
 
 
